@@ -6,6 +6,7 @@ import BlugeProofs.C12.Decode
 import BlugeProofs.C12.Safe
 import BlugeProofs.C12.Crc
 import BlugeProofs.C12.Pos
+import BlugeProofs.C12.Stream
 /-! # C12 — snapshot files round-trip and every damaged file is rejected safely
 
 Property theorems only (helper lemmas live in `BlugeProofs/C12/*.lean`). The model is `Bluge.Codec`:
@@ -68,10 +69,10 @@ theorem snapshot_roundtrip (hl : ro.Lawful) (cfg : Cfg) (mmap : Bool)
   cases hb : cfg.boundedReads with
   | false =>
     obtain ⟨r, h1, h2, _⟩ := readFrom_pinned ro hl cfg hb segs (fun s hs => ⟨(ht s hs).1, by have := (ht s hs).2; omega⟩) hsize
-    exact ⟨loadSnapshot_of_readFrom ro _ mmap segs _ _ r h1 h2, r, h1⟩
+    exact ⟨loadSnapshot_of_readFrom ro _ mmap segs _ _ r h1 h2 rfl, r, h1⟩
   | true =>
     obtain ⟨r, h1, h2, _⟩ := readFrom_guarded ro hl cfg hb segs (by omega)
-    exact ⟨loadSnapshot_of_readFrom ro _ mmap segs _ _ r h1 h2, r, h1⟩
+    exact ⟨loadSnapshot_of_readFrom ro _ mmap segs _ _ r h1 h2 rfl, r, h1⟩
 
 /-- the round trip for the configuration the extractor reads off /repo's source -/
 theorem snapshot_roundtrip_current (hl : ro.Lawful) (mmap : Bool) (segs : List (Seg R)) (h : PinnedHyp ro segs) :
@@ -84,7 +85,7 @@ theorem snapshot_roundtrip_guarded (hl : ro.Lawful) (cfg : Cfg) (hcfg : cfg.boun
     (segs : List (Seg R)) (hsize : (encBody ro segs).length < 2 ^ 63) :
     loadSnapshot ro cfg mmap (encFile ro segs) = .ok (segs.map (normSeg ro)) := by
   obtain ⟨r, h1, h2, _⟩ := readFrom_guarded ro hl cfg hcfg segs hsize
-  exact loadSnapshot_of_readFrom ro _ mmap segs _ _ r h1 h2
+  exact loadSnapshot_of_readFrom ro _ mmap segs _ _ r h1 h2 rfl
 
 end
 
@@ -109,12 +110,14 @@ section
 variable {R : Type} (ro : Roar R)
 
 /-- **What `loadSnapshot` accepts.** A file is accepted as the state `ss` iff it has at least the 4 trailer
-bytes, the decoder returns `ss` on all but those 4 bytes, and the trailer equals the big-endian CRC-32 of the
+bytes, the decoder returns `ss` on all but those 4 bytes, (repaired code: `cfg.lengthChecked`) the byte count
+the decoder reports is the length of the body, and the trailer equals the big-endian CRC-32 of the
 bytes *pulled* from the file by the buffered reader (`body.take r.pos` — everything up to where bufio
-stopped reading, which may be more than the decoder consumed and less than the body). -/
+stopped reading, which may be more than the decoder consumed and, without the length check, less than the body). -/
 theorem accept_char (cfg : Cfg) (mmap : Bool) (file : Bytes) (ss : List (Seg R)) :
     loadSnapshot ro cfg mmap file = .ok ss ↔
       4 ≤ file.length ∧ ∃ n r, readFrom ro cfg (bodyOf file) = .ok (ss, n, r) ∧
+        (cfg.lengthChecked = true → n = (bodyOf file).length) ∧
         be32 (crc32 ((bodyOf file).take r.pos)) = trailerOf file := by
   unfold loadSnapshot
   dsimp only
@@ -122,21 +125,32 @@ theorem accept_char (cfg : Cfg) (mmap : Bool) (file : Bytes) (ss : List (Seg R))
   | ok x =>
     obtain ⟨ss', n, r⟩ := x
     dsimp only
-    by_cases h4 : file.length < 4
-    · rw [if_pos h4]
+    by_cases hlen : (cfg.lengthChecked && n != (bodyOf file).length) = true
+    · rw [if_pos hlen]
+      simp only [Bool.and_eq_true, bne_iff_ne, ne_eq] at hlen
       constructor
       · intro h; cases h
-      · rintro ⟨h4', _⟩; omega
-    · rw [if_neg h4]
-      by_cases hc : be32 (crc32 ((bodyOf file).take r.pos)) = trailerOf file
-      · rw [if_pos hc]
+      · rintro ⟨_, n', r', heq, hn, _⟩; cases heq; exact absurd (hn hlen.1) hlen.2
+    · rw [if_neg hlen]
+      have hlen' : cfg.lengthChecked = true → n = (bodyOf file).length := by
+        intro hc
+        simp only [hc, Bool.true_and, bne_iff_ne, ne_eq, Decidable.not_not] at hlen
+        exact hlen
+      by_cases h4 : file.length < 4
+      · rw [if_pos h4]
         constructor
-        · intro h; cases h; exact ⟨by omega, n, r, rfl, hc⟩
-        · rintro ⟨_, n', r', heq, _⟩; cases heq; rfl
-      · rw [if_neg hc]
-        constructor
-        · intro h; split at h <;> cases h
-        · rintro ⟨_, n', r', heq, hc'⟩; cases heq; exact absurd hc' hc
+        · intro h; cases h
+        · rintro ⟨h4', _⟩; omega
+      · rw [if_neg h4]
+        by_cases hc : be32 (crc32 ((bodyOf file).take r.pos)) = trailerOf file
+        · rw [if_pos hc]
+          constructor
+          · intro h; cases h; exact ⟨by omega, n, r, rfl, hlen', hc⟩
+          · rintro ⟨_, n', r', heq, _, _⟩; cases heq; rfl
+        · rw [if_neg hc]
+          constructor
+          · intro h; split at h <;> cases h
+          · rintro ⟨_, n', r', heq, _, hc'⟩; cases heq; exact absurd hc' hc
   | error e =>
     constructor
     · intro h; cases h
@@ -158,13 +172,13 @@ theorem accept_char (cfg : Cfg) (mmap : Bool) (file : Bytes) (ss : List (Seg R))
 state" up to CRC-32 collisions (not claimed to be absent) -/
 theorem accepted_state_is_decoded (cfg : Cfg) (mmap : Bool) (file : Bytes) (ss : List (Seg R))
     (h : loadSnapshot ro cfg mmap file = .ok ss) : decode ro cfg (bodyOf file) = .ok ss := by
-  obtain ⟨_, n, r, hrf, _⟩ := (accept_char ro cfg mmap file ss).mp h
+  obtain ⟨_, n, r, hrf, _, _⟩ := (accept_char ro cfg mmap file ss).mp h
   simp [decode, hrf]
 
 /-- **Rejection that does not depend on the CRC value (1).** A file shorter than the CRC trailer is
 rejected with an error by either loader, pinned or repaired. -/
 theorem reject_truncation_short (cfg : Cfg) (mmap : Bool) (file : Bytes) (h : file.length < 4) :
-    loadSnapshot ro cfg mmap file = .error .version := by
+    loadSnapshot ro cfg mmap file = .error (if cfg.lengthChecked = true then .eof else .version) := by
   have hb : bodyOf file = [] := by
     unfold bodyOf
     have : file.length - 4 = 0 := by omega
@@ -185,8 +199,8 @@ theorem reject_trailer_damage (cfg : Cfg) (mmap : Bool) (body t t' : Bytes) (ss 
     constructor
     · simp [bodyOf, hu]
     · simp [trailerOf, hu]
-  obtain ⟨_, n, r, hrf, hc⟩ := (accept_char ro cfg mmap _ ss).mp h
-  obtain ⟨_, n', r', hrf', hc'⟩ := (accept_char ro cfg mmap _ ss').mp h'
+  obtain ⟨_, n, r, hrf, _, hc⟩ := (accept_char ro cfg mmap _ ss).mp h
+  obtain ⟨_, n', r', hrf', _, hc'⟩ := (accept_char ro cfg mmap _ ss').mp h'
   rw [(hb t ht).1] at hrf hc
   rw [(hb t' ht').1] at hrf' hc'
   rw [(hb t ht).2] at hc
@@ -210,8 +224,8 @@ theorem reject_byte_change (cfg : Cfg) (mmap : Bool) (A B t : Bytes) (b e : Byte
     constructor
     · simp [bodyOf, ht]
     · simp [trailerOf, ht]
-  obtain ⟨_, n, r, hrf, hc⟩ := (accept_char ro cfg mmap _ ss).mp h
-  obtain ⟨_, n', r', hrf', hc'⟩ := (accept_char ro cfg mmap _ ss').mp h'
+  obtain ⟨_, n, r, hrf, _, hc⟩ := (accept_char ro cfg mmap _ ss).mp h
+  obtain ⟨_, n', r', hrf', _, hc'⟩ := (accept_char ro cfg mmap _ ss').mp h'
   rw [(hb _).1] at hrf hc hrf' hc'
   rw [(hb _).2] at hc hc'
   rw [pulled_all_of_small ro cfg _ hsmall ss n r hrf] at hc
@@ -272,20 +286,222 @@ theorem reject_bitflip (hl : ro.Lawful) (cfg : Cfg) (mmap : Bool) (segs : List (
 
 /-- **(3)** A body that does not start with format version 1 is rejected whatever follows. -/
 theorem reject_bad_version (cfg : Cfg) (inp : Bytes) (h : (uvarint (inp.take 10)).1 ≠ 1)
-    (hn : 0 ≤ (uvarint (inp.take 10)).2) : readFrom ro cfg inp = .error .version := by
+    (hn : 0 < (uvarint (inp.take 10)).2) : readFrom ro cfg inp = .error .version := by
   obtain ⟨r1, hpk, _, _, _, _, hb⟩ := peek10_spec inp {} inv_init
   rw [stream_init] at hpk hb
   have hle := uvarint_n_le (inp.take 10)
   have hlen : (inp.take 10).length = min 10 inp.length := List.length_take
-  unfold readFrom readFromRd peekUvarint
+  unfold readFrom readFromRd peekUvarintC
   rw [hpk]
   simp only [Bool.false_and, Bool.false_eq_true, if_false]
   rw [if_neg (by omega)]
+  have hz : (cfg.lengthChecked && (uvarint (inp.take 10)).2 == 0) = false := by
+    have : ((uvarint (inp.take 10)).2 == 0) = false := by
+      simp only [beq_eq_false_iff_ne, ne_eq]; omega
+    rw [this, Bool.and_false]
+  rw [hz]
+  simp only [Bool.false_eq_true, if_false]
   rw [discard_spec inp _ r1 (by omega)]
   simp only [Bool.false_eq_true, if_false, ok_bind]
   rw [if_neg h]
 
 end
+
+
+/-! ## the decoder as a function of the bytes alone; exactly what is accepted -/
+
+section
+variable {R : Type} (ro : Roar R)
+
+/-- **The buffered decoder computes the buffer-free grammar `sDecode`** (repaired reads): on every input,
+wherever the 4096-byte buffer edges fall, `ReadFrom` returns what `sDecode` returns — the same segments, the
+same error — and the byte count it reports is the number of bytes consumed: the reader it leaves behind holds
+exactly the input without its first `n` bytes. -/
+theorem readFrom_eq_sDecode (cfg : Cfg) (hb : cfg.boundedReads = true) (hu : cfg.uintLoop = true) (inp : Bytes) :
+    match sDecode ro cfg.lengthChecked inp with
+    | .ok (ss, n) => ∃ r, readFrom ro cfg inp = .ok (ss, n, r) ∧ stream inp r = inp.drop n ∧ n ≤ inp.length
+    | .error e => readFrom ro cfg inp = .error e
+    | _ => False := by
+  have h := readFromRd_sim ro cfg hb hu inp (allocLimit inp.length) {} inv_init
+  rw [stream_init] at h
+  unfold Sim at h
+  cases hs : sDecode ro cfg.lengthChecked inp with
+  | ok p =>
+    obtain ⟨ss, n⟩ := p
+    rw [hs] at h
+    obtain ⟨r, hx, hst, _, hk, _⟩ := h
+    rw [stream_init] at hst hk
+    exact ⟨r, hx, hst, hk⟩
+  | error e => rw [hs] at h; exact h
+  | panic s => rw [hs] at h; exact h
+  | alloc s n => rw [hs] at h; exact h
+  | fault s => rw [hs] at h; exact h
+
+/-- the decoder's success, without the reader state -/
+theorem readFrom_ok_iff (cfg : Cfg) (hb : cfg.boundedReads = true) (hu : cfg.uintLoop = true) (inp : Bytes)
+    (ss : List (Seg R)) (n : Nat) :
+    (∃ r, readFrom ro cfg inp = .ok (ss, n, r)) ↔ sDecode ro cfg.lengthChecked inp = .ok (ss, n) := by
+  have h := readFrom_eq_sDecode ro cfg hb hu inp
+  constructor
+  · rintro ⟨r, hr⟩
+    cases hs : sDecode ro cfg.lengthChecked inp with
+    | ok p =>
+      obtain ⟨ss', n'⟩ := p
+      rw [hs] at h
+      obtain ⟨r', hr', _⟩ := h
+      rw [hr] at hr'; cases hr'; rfl
+    | error e => rw [hs] at h; rw [hr] at h; cases h
+    | panic s => rw [hs] at h; exact h.elim
+    | alloc s n => rw [hs] at h; exact h.elim
+    | fault s => rw [hs] at h; exact h.elim
+  · intro hs
+    rw [hs] at h
+    obtain ⟨r, hr, _⟩ := h
+    exact ⟨r, hr⟩
+
+/-- the byte count `ReadFrom` reports is the number of bytes it consumed -/
+theorem readFrom_consumed (cfg : Cfg) (hb : cfg.boundedReads = true) (hu : cfg.uintLoop = true) (inp : Bytes)
+    (ss : List (Seg R)) (n : Nat) (r : Rd) (h : readFrom ro cfg inp = .ok (ss, n, r)) :
+    stream inp r = inp.drop n ∧ n ≤ inp.length := by
+  have hs := (readFrom_ok_iff ro cfg hb hu inp ss n).mp ⟨r, h⟩
+  have h' := readFrom_eq_sDecode ro cfg hb hu inp
+  rw [hs] at h'
+  obtain ⟨r', hr', hst, hk⟩ := h'
+  rw [h] at hr'; cases hr'
+  exact ⟨hst, hk⟩
+
+/-- **After the repair every accepted file's body is consumed exactly, and the CRC covers the whole body**:
+if `loadSnapshot` (length-checked, full reads) accepts `file` as `ss`, then the grammar reads `ss` from the body
+using every one of its bytes, and the trailer is the CRC-32 of the WHOLE body (not of a prefix bufio happened to pull). -/
+theorem accepted_consumes_whole_body (cfg : Cfg) (hb : cfg.boundedReads = true) (hu : cfg.uintLoop = true)
+    (hl : cfg.lengthChecked = true) (mmap : Bool) (file : Bytes) (ss : List (Seg R))
+    (h : loadSnapshot ro cfg mmap file = .ok ss) :
+    4 ≤ file.length ∧ sDecode ro true (bodyOf file) = .ok (ss, (bodyOf file).length) ∧
+      trailerOf file = be32 (crc32 (bodyOf file)) := by
+  obtain ⟨h4, n, r, hrf, hn, hc⟩ := (accept_char ro cfg mmap file ss).mp h
+  have hn' := hn hl
+  subst hn'
+  have hs := (readFrom_ok_iff ro cfg hb hu _ ss _).mp ⟨r, hrf⟩
+  rw [hl] at hs
+  obtain ⟨hst, _⟩ := readFrom_consumed ro cfg hb hu _ ss _ r hrf
+  have hpos : (bodyOf file).take r.pos = bodyOf file := by
+    apply List.take_of_length_le
+    rw [List.drop_length] at hst
+    have : (bodyOf file).drop r.pos = [] := by
+      unfold stream at hst
+      exact (List.append_eq_nil_iff.mp hst).2
+    have := List.drop_eq_nil_iff.mp this
+    omega
+  rw [hpos] at hc
+  exact ⟨h4, hs, hc.symm⟩
+
+/-- **Exactly what the repaired loader accepts**: `file` is accepted as `ss` iff it has the 4 trailer bytes, the
+grammar reads `ss` from all but those 4 bytes consuming every one of them, and the trailer is the big-endian
+CRC-32 of all but those 4 bytes. No reader state, no buffer, no prefix. -/
+theorem accept_char_checked (cfg : Cfg) (hb : cfg.boundedReads = true) (hu : cfg.uintLoop = true)
+    (hl : cfg.lengthChecked = true) (mmap : Bool) (file : Bytes) (ss : List (Seg R)) :
+    loadSnapshot ro cfg mmap file = .ok ss ↔
+      4 ≤ file.length ∧ sDecode ro true (bodyOf file) = .ok (ss, (bodyOf file).length) ∧
+        trailerOf file = be32 (crc32 (bodyOf file)) := by
+  constructor
+  · exact accepted_consumes_whole_body ro cfg hb hu hl mmap file ss
+  · rintro ⟨h4, hs, hc⟩
+    rw [← hl] at hs
+    obtain ⟨r, hrf⟩ := (readFrom_ok_iff ro cfg hb hu _ ss _).mpr hs
+    obtain ⟨hst, _⟩ := readFrom_consumed ro cfg hb hu _ ss _ r hrf
+    have hpos : (bodyOf file).take r.pos = bodyOf file := by
+      apply List.take_of_length_le
+      rw [List.drop_length] at hst
+      have : (bodyOf file).drop r.pos = [] := by
+        unfold stream at hst
+        exact (List.append_eq_nil_iff.mp hst).2
+      have := List.drop_eq_nil_iff.mp this
+      omega
+    exact (accept_char ro cfg mmap file ss).mpr ⟨h4, _, r, hrf, fun _ => rfl, by rw [hpos, hc]⟩
+
+/-- `file` is an encoding: some snapshot is written as exactly these bytes -/
+def IsEncoding (file : Bytes) : Prop := ∃ segs : List (Seg R), encFile ro segs = file
+
+/-- **Which accepted files are not encodings.** An accepted file (repaired code) is an encoding iff its body is
+the `WriteTo` spelling of some snapshot that reads back as the accepted state. So the files that are accepted
+although `WriteTo` never produces them are exactly the CRC-consistent files whose body spells the SAME state
+differently — and by `accept_char_checked` the only freedom the grammar `sDecode` leaves is a uvarint field
+longer than necessary (`sUvarint`: any terminated uvarint within 10 bytes) and a deleted payload that
+`roaring.ReadFrom` accepts but `ToBytes` would not write (`ro.dec p = some d` with `ro.enc d ≠ p`): nothing
+missing, nothing extra, never another state. -/
+theorem accepted_isEncoding_iff (hlaw : ro.Lawful) (cfg : Cfg) (hb : cfg.boundedReads = true) (hu : cfg.uintLoop = true)
+    (hl : cfg.lengthChecked = true) (mmap : Bool) (file : Bytes) (ss : List (Seg R))
+    (hacc : loadSnapshot ro cfg mmap file = .ok ss) (hsize : file.length < 2 ^ 63) :
+    IsEncoding ro file ↔ ∃ segs, segs.map (normSeg ro) = ss ∧ encBody ro segs = bodyOf file := by
+  obtain ⟨h4, _, hc⟩ := accepted_consumes_whole_body ro cfg hb hu hl mmap file ss hacc
+  have hsplit : file = bodyOf file ++ trailerOf file := by
+    unfold bodyOf trailerOf; exact (List.take_append_drop _ _).symm
+  constructor
+  · rintro ⟨segs, hf⟩
+    have hbody : bodyOf file = encBody ro segs := by
+      rw [← hf]; simp [bodyOf, encFile, be32_length]
+    have hsz : (encBody ro segs).length < 2 ^ 63 := by
+      rw [← hbody]; unfold bodyOf; rw [List.length_take]; omega
+    have hrt := snapshot_roundtrip_guarded ro hlaw cfg hb mmap segs hsz
+    rw [hf, hacc] at hrt
+    cases hrt
+    exact ⟨segs, rfl, hbody.symm⟩
+  · rintro ⟨segs, _, hbody⟩
+    refine ⟨segs, ?_⟩
+    unfold encFile
+    simp only
+    rw [hbody, ← hc, ← hsplit]
+
+end
+
+/-! ### witnesses: what the length checks change, and what stays accepted (each replayed on the real code) -/
+
+/-- the configuration of the tree before the length checks: the three earlier repairs only -/
+def cfgUnchecked : Cfg := { Cfg.guarded with lengthChecked := false }
+
+set_option maxRecDepth 16384 in
+/-- **5 bytes, the minimal input**: a body that holds the format version and nothing else (no segment count),
+followed by its CRC. Without the checks `Uvarint` of the missing field is `(0, 0)`, `Discard(0)` succeeds and the
+file is accepted as the empty snapshot; with them it is an error. -/
+theorem witness_missing_count :
+    loadSnapshot opaqueRoar cfgUnchecked false [0x01, 0xa5, 0x05, 0xdf, 0x1b] = .ok [] ∧
+    loadSnapshot opaqueRoar cfgUnchecked true [0x01, 0xa5, 0x05, 0xdf, 0x1b] = .ok [] ∧
+    loadSnapshot opaqueRoar Cfg.guarded false [0x01, 0xa5, 0x05, 0xdf, 0x1b] = .error .eof ∧
+    loadSnapshot opaqueRoar Cfg.guarded false (encFile opaqueRoar []) = .ok [] ∧
+    encFile opaqueRoar [] ≠ [0x01, 0xa5, 0x05, 0xdf, 0x1b] := by decide
+
+set_option maxRecDepth 16384 in
+/-- a byte after the last segment, inside the CRC: accepted as the empty snapshot without the length
+comparison, `error` with it -/
+theorem witness_trailing_byte :
+    loadSnapshot opaqueRoar cfgUnchecked false ([0x01, 0x00, 0xaa] ++ be32 (crc32 [0x01, 0x00, 0xaa])) = .ok [] ∧
+    loadSnapshot opaqueRoar Cfg.guarded false ([0x01, 0x00, 0xaa] ++ be32 (crc32 [0x01, 0x00, 0xaa])) = .error .length := by
+  decide
+
+set_option maxRecDepth 16384 in
+/-- what stays accepted after the repair, class C: the count 0 spelled in two bytes (`80 00`) -/
+theorem witness_overlong_accepted :
+    loadSnapshot opaqueRoar Cfg.guarded false ([0x01, 0x80, 0x00] ++ be32 (crc32 [0x01, 0x80, 0x00])) = .ok [] := by decide
+
+/-- … and it is not an encoding: the only snapshot that reads back as `[]` is `[]`, written `01 00` -/
+theorem witness_overlong_not_encoding :
+    ¬ IsEncoding opaqueRoar ([0x01, 0x80, 0x00] ++ be32 (crc32 [0x01, 0x80, 0x00])) := by
+  intro h
+  obtain ⟨segs, hf⟩ := h
+  have hbody : encBody opaqueRoar segs = [0x01, 0x80, 0x00] := by
+    have := congrArg bodyOf hf
+    simpa [bodyOf, encFile, be32_length] using this
+  cases segs with
+  | nil => revert hbody; decide
+  | cons s rest =>
+    have hlen := congrArg List.length hbody
+    simp only [encBody, List.length_append, List.map_cons, List.flatten_cons, List.length_cons, List.length_nil] at hlen
+    have h1 : (putUvarint 1).length = 1 := putUvarint_length_one 1 (by omega)
+    have h2 := putUvarint_length_pos (s :: rest).length
+    have h3 : 4 ≤ (encSeg opaqueRoar s).length := by
+      rw [encSeg_length]; omega
+    simp only [List.length_cons] at h2
+    omega
 
 /-! ## fallback -/
 
@@ -314,28 +530,10 @@ theorem fallback_guarded (mmap : Bool) (plugin : Bytes → BitVec 32 → Bool) (
   have hsafe : sitesIn (fun _ => False) (loadFull ro Cfg.guarded mmap plugin segExists damaged) := by
     unfold loadFull
     apply sitesIn_bind
-    · unfold loadSnapshot
-      dsimp only
-      have h := readFrom_sites ro Cfg.guarded (bodyOf damaged)
-      cases hrf : readFrom ro Cfg.guarded (bodyOf damaged) with
-      | ok x =>
-        obtain ⟨ss', n, r⟩ := x
-        simp only
-        by_cases h4 : damaged.length < 4
-        · exfalso
-          have hb : bodyOf damaged = [] := by
-            unfold bodyOf
-            have : damaged.length - 4 = 0 := by omega
-            rw [this]; rfl
-          rw [hb, readFrom_nil] at hrf; cases hrf
-        · rw [if_neg h4]
-          split
-          · trivial
-          · simp [Cfg.guarded]; trivial
-      | error e => trivial
-      | panic s => rw [hrf] at h; exact absurd h.1 (by simp [Cfg.guarded])
-      | alloc s n => rw [hrf] at h; exact absurd h.1 (by simp [Cfg.guarded])
-      | fault s => rw [hrf] at h; exact absurd h.1 (by simp [Cfg.guarded])
+    · refine sitesIn_mono (fun s hs => ?_) (loadSnapshot_sites ro Cfg.guarded mmap damaged)
+      rcases hs with hs | hs
+      · simp [decodeSites, Cfg.guarded] at hs
+      · simp [Cfg.guarded] at hs
     · intro ss'
       apply sitesIn_bind
       · generalize ss' = l
@@ -455,24 +653,27 @@ theorem gen_script_encoder :
 `readSegmentSnapshot` = `readSegment`, `readVarLenString`, `readN` = `readChunked`, for the configuration
 `currentCfg` the extractor reads off the same source; the hash reader counts and hashes what it hands out -/
 theorem gen_script_decoder :
-    BlugeGen.C12.readFrom = Script.readFrom ∧
-    BlugeGen.C12.readFromVersion1 = Script.readFromVersion1 currentCfg.uintLoop ∧
-    BlugeGen.C12.readSegmentSnapshot = Script.readSegmentSnapshot currentCfg.boundedReads ∧
-    BlugeGen.C12.readVarLenString = Script.readVarLenString currentCfg.boundedReads ∧
+    BlugeGen.C12.readFrom = Script.readFrom currentCfg.lengthChecked ∧
+    BlugeGen.C12.readFromVersion1 = Script.readFromVersion1 currentCfg.uintLoop currentCfg.lengthChecked ∧
+    BlugeGen.C12.readSegmentSnapshot = Script.readSegmentSnapshot currentCfg.boundedReads currentCfg.lengthChecked ∧
+    BlugeGen.C12.readVarLenString = Script.readVarLenString currentCfg.boundedReads currentCfg.lengthChecked ∧
     BlugeGen.C12.readN = Script.readN currentCfg.boundedReads ∧
     BlugeGen.C12.countHashReaderRead = Script.countHashReaderRead := ⟨rfl, rfl, rfl, rfl, rfl, rfl⟩
 
 /-- loader: `loadSnapshot` = limit reader over all but 4 bytes, hash reader, `ReadFrom`, big-endian CRC of
 the hash reader against the last 4 bytes (copied or not before the close: `currentCfg.crcCopy`), close, then
 plugin and segment file per segment -/
-theorem gen_script_loader : BlugeGen.C12.loadSnapshot = Script.loadSnapshot currentCfg.crcCopy := rfl
+theorem gen_script_loader :
+    BlugeGen.C12.loadSnapshot = Script.loadSnapshot currentCfg.crcCopy currentCfg.lengthChecked := rfl
 
 set_option maxRecDepth 8192 in
 /-- the tables do distinguish the pinned from the repaired code (the obligation above is not vacuous in the switch) -/
-example : Script.readVarLenString true ≠ Script.readVarLenString false ∧
-    Script.readSegmentSnapshot true ≠ Script.readSegmentSnapshot false ∧
-    Script.readFromVersion1 true ≠ Script.readFromVersion1 false ∧
-    Script.loadSnapshot true ≠ Script.loadSnapshot false := by decide
+example : Script.readVarLenString true true ≠ Script.readVarLenString false true ∧
+    Script.readSegmentSnapshot true true ≠ Script.readSegmentSnapshot false true ∧
+    Script.readFromVersion1 true true ≠ Script.readFromVersion1 false true ∧
+    Script.readFromVersion1 true true ≠ Script.readFromVersion1 true false ∧
+    Script.loadSnapshot true true ≠ Script.loadSnapshot false true ∧
+    Script.loadSnapshot true true ≠ Script.loadSnapshot true false := by decide
 
 /-- **The safety statement is false for the pinned code.** -/
 theorem C12_safe_fails_pinned : ¬ SafeStatement Cfg.pinned := by
